@@ -78,8 +78,9 @@ def methodArgs (k : MemberKind) (name : Bytes) : List (Option VType) :=
   else if k = .string && name = b!"split" then [some .string]
   else if k = .array && name = b!"push" then [none]
   else if k = .array && name = b!"join" then [some .string]
-  else if k = .processCommand && (name = b!"arg" || name = b!"cwd" || name = b!"stdin_text") then [some .string]
-  else if k = .processCommand && name = b!"env" then [some .string, some .string]
+  else if k = .processCommand && (name = b!"arg" || name = b!"stdin_text") then [none]
+  else if k = .processCommand && name = b!"cwd" then [some .string]
+  else if k = .processCommand && name = b!"env" then [some .string, none]
   else if k = .processCommand && name = b!"timeout_ms" then [some .number]
   else []
 
@@ -88,17 +89,5 @@ def argOk (want : Option VType) (t : VType) : Bool :=
   match want with
   | none => true
   | some w => (instances t).any fun a => a = w
-
-/-- The operator table of the pinned checker deviates from the documented one exactly on these
-entries (defect D-09d: accepted, although no run-time instance has a meaning). -/
-def knownDeviation (op : BinOp) (l r : VType) : Bool :=
-  match op with
-  | .add =>
-      ((l = .string || l = .dynamic) && !(r = .string || r = .number || r = .dynamic))
-      || ((r = .string || r = .dynamic) && !(l = .string || l = .number || l = .dynamic))
-  | .and | .or =>
-      ((l = .null || l = .dynamic) && !(r = .bool || r = .null || r = .dynamic))
-      || ((r = .null || r = .dynamic) && !(l = .bool || l = .null || l = .dynamic))
-  | _ => false
 
 end NaijaVerif.Doc
